@@ -115,6 +115,31 @@ type run08 struct {
 	nextID int
 	py     *ext.Py
 	flags  map[string]bool
+	wbuf   []byte // the ONE reused buffer every Write goes through (scribbled after each call)
+	ring   *ring  // slices handed out by Sum / filled by Read (shared by all histories of the process)
+	nArg   []byte // the caller-owned N and S slices given to the constructor (scribbled afterwards)
+	sArg   []byte
+	scribN byte
+}
+
+// scribbleNS overwrites the caller's N/S slices: the hash must not depend on them any more.
+func (c *run08) scribbleNS() {
+	if len(c.nArg)+len(c.sArg) == 0 {
+		return
+	}
+	c.scribN += 0x11
+	scribble(c.nArg, 0xA5^c.scribN)
+	scribble(c.sArg, 0x5A^c.scribN)
+	c.m.Count("cshake_ns_scribbles", 1)
+}
+
+// recheck re-verifies every retained output slice after an operation.
+func (c *run08) recheck(after string) {
+	bad, n := c.ring.verify()
+	c.m.Count("retained_slice_rechecks", n)
+	if bad != nil {
+		c.m.Violation("returned-slice-changed-later:"+bad.src, c.wit(map[string]any{"after_op": after, "was": mon.Hex(bad.snap), "now": mon.Hex(bad.buf)}))
+	}
 }
 
 func (c *run08) wit(extra map[string]any) map[string]any {
@@ -189,9 +214,18 @@ func (c *run08) write(in *inst08, p []byte) {
 	}
 	var n int
 	var err error
-	pv, _ := mon.Panics(func() { n, err = in.h.Write(p) })
+	arg := c.wbuf[:len(p):len(p)]
+	copy(arg, p)
+	pv, _ := mon.Panics(func() { n, err = in.h.Write(arg) })
 	c.m.Eval()
 	c.logOp("write", in.id, p, 0, panicRes(pv))
+	c.m.Count("writes_via_scribbled_buffer", 1)
+	if !bytes.Equal(arg, p) {
+		c.fail(in, "write-modifies-input:"+c.v.name, map[string]any{"after": mon.Hex(arg)})
+		return
+	}
+	scribble(arg, 0xA5) // Write must not retain p
+	c.recheck("write")
 	switch in.sq {
 	case sqSqueezing:
 		if len(p) == 0 {
@@ -237,18 +271,24 @@ func (c *run08) sum(in *inst08) {
 	if in.dead {
 		return
 	}
-	var prefix []byte
-	switch c.r.IntN(4) {
-	case 1:
-		prefix = mon.Bytes(c.r, 1+c.r.IntN(8))
-	case 2:
-		prefix = append(make([]byte, 0, 200), mon.Bytes(c.r, c.r.IntN(5))...) // spare capacity: append must not clobber
-	}
+	prefix, guard, pclass := sumPrefix(c.r, c.v.size)
 	pfx := append([]byte{}, prefix...)
 	var got []byte
 	pv, _ := mon.Panics(func() { got = in.h.Sum(prefix) })
 	c.m.Eval()
-	c.logOp("sum", in.id, pfx, 0, panicRes(pv))
+	c.logOp("sum", in.id, pfx, 0, panicRes(pv)+" "+pclass)
+	if guard != nil {
+		// append contract: the prefix bytes stay, nothing outside b[:cap(b)] is touched
+		if !guard.intact() || !bytes.Equal(guard.back[guard.lo:guard.lo+len(pfx)], pfx) {
+			c.fail(in, "sum-writes-outside-append-region:"+c.v.name, map[string]any{"class": pclass, "backing": mon.Hex(guard.back), "prefix": mon.Hex(pfx)})
+			return
+		}
+	}
+	if pv == nil {
+		c.m.Count(pclass, 1)
+		c.ring.keep(got, c.v.name+":sum")
+	}
+	c.recheck("sum")
 	switch in.sq {
 	case sqSqueezing:
 		if pv != nil {
@@ -296,12 +336,19 @@ func (c *run08) read(in *inst08, n int) {
 	if in.dead || !c.canRead(in) {
 		return
 	}
-	buf := make([]byte, n)
+	buf, guard := mkDst(n)
 	var rn int
 	var err error
 	pv, _ := mon.Panics(func() { rn, err = in.h.(io.Reader).Read(buf) })
 	c.m.Eval()
 	c.logOp("read", in.id, nil, n, panicRes(pv))
+	c.m.Count("read_sentinel_checks", 1)
+	if !guard.intact() {
+		c.fail(in, "read-writes-outside-dst:"+c.v.name, map[string]any{"n": n, "backing": mon.Hex(guard.back)})
+		return
+	}
+	c.ring.keep(buf, c.v.name+":read")
+	c.recheck("read")
 	if pv != nil {
 		c.fail(in, "unexpected-panic:read:"+c.v.name, map[string]any{"panic": fmt.Sprint(pv)})
 		return
@@ -369,6 +416,8 @@ func (c *run08) clone(in *inst08) *inst08 {
 		return nil
 	}
 	c.m.Count("clones", 1)
+	c.scribbleNS() // Clone re-runs the constructor closure: it must not look at the caller's N/S again
+	c.recheck("clone")
 	if in.sq != sqAbsorbing {
 		c.m.Count("clones_of_squeezing_state", 1)
 	}
@@ -391,6 +440,8 @@ func (c *run08) reset(in *inst08) {
 		return
 	}
 	c.m.Count("resets", 1)
+	c.scribbleNS()
+	c.recheck("reset")
 	was := in.sq
 	in.msg, in.off = nil, 0
 	if was == sqAbsorbing {
@@ -547,7 +598,7 @@ func nsPick08(r *rand.Rand, rate int) []byte {
 func TestC08(t *testing.T) {
 	m := mon.New(t, "C08")
 	defer m.Done()
-	m.Rule("case = one history on one variant (index-scheduled: shake128/256, cshake128/256, legacy keccak256/512 get 3/4 of the cases, sha3-224/256/384/512 1/4): message length from the index-scheduled class list {0,1,k·rate+d (k=1..3,d=-2..2),5·rate,1000,random 0..1000}, written in random chunkings (single, first chunk at rate±1, 1..3-byte chunks, with empty writes, random cuts), interleaved with Sum (random prefix/capacity), Clone (ShakeHash.Clone / hash.Cloner; clones are kept and later diverged), Reset, mid-stream Read; every XOF history ends with Sum, Clone, Read of 0..1000 bytes in random chunks, then Write and Sum attempts that must panic, then checks on clones taken before and after the Read; cSHAKE N,S from {0,1,31,32,rate-8,rate-7,rate-6,167,168,169,300}² with empty/empty and (empty, rate-7 bytes: prefix fills one block exactly) each forced every 9th sweep. Oracle = executable FIPS 202/SP 800-185 spec (h/ref/keccak) as a pure function of (variant,N,S,bytes written since Reset, bytes read); panics judged both ways where documented (Write/Sum after Read on ShakeHash, Write/Sum after Read on the legacy state via io.Reader); zero-length first Read, Sum on a squeezing clone and Reset-after-Read accept every consistent reading. distinct = (variant, length class, chunk style, N/S size class, set of interleaved op kinds, output class)")
+	m.Rule("case = one history on one variant (index-scheduled: shake128/256, cshake128/256, legacy keccak256/512 get 3/4 of the cases, sha3-224/256/384/512 1/4): message length from the index-scheduled class list {0,1,k·rate+d (k=1..3,d=-2..2),5·rate,1000,random 0..1000}, written in random chunkings (single, first chunk at rate±1, 1..3-byte chunks, with empty writes, random cuts), interleaved with Sum (random prefix/capacity), Clone (ShakeHash.Clone / hash.Cloner; clones are kept and later diverged), Reset, mid-stream Read; every XOF history ends with Sum, Clone, Read of 0..1000 bytes in random chunks, then Write and Sum attempts that must panic, then checks on clones taken before and after the Read; cSHAKE N,S from {0,1,31,32,rate-8,rate-7,rate-6,167,168,169,300}² with empty/empty and (empty, rate-7 bytes: prefix fills one block exactly) each forced every 9th sweep. Buffer ownership: every Write goes through one reused buffer that is overwritten after the call (and must come back unmodified), the caller-owned N/S slices are overwritten after the constructor and after every Clone/Reset, the last 8 slices returned by Sum / filled by Read / one-shot helpers are re-compared with snapshots after every later operation of any instance, Sum(b) gets guarded prefixes (no/short/enough spare capacity) and Read destinations sit between sentinel bytes. Oracle = executable FIPS 202/SP 800-185 spec (h/ref/keccak) as a pure function of (variant,N,S,bytes written since Reset, bytes read); panics judged both ways where documented (Write/Sum after Read on ShakeHash, Write/Sum after Read on the legacy state via io.Reader); zero-length first Read, Sum on a squeezing clone and Reset-after-Read accept every consistent reading. distinct = (variant, length class, chunk style, N/S size class, set of interleaved op kinds, output class)")
 	m.Assume("h/ref/keccak derives ρ offsets and ι constants from the FIPS 202 algorithms and passes FIPS 202 / SP 800-185 sample / Keccak-256/512 known answers in its own unit test; cross-checked here on every comparison against libgcrypt (SHA3, SHAKE), nettle (SHA3) and on final states against python hashlib; cSHAKE with non-empty N/S and legacy Keccak have the ref as only oracle (same sponge code, different domain byte/prefix)")
 	py, err := ext.StartPy()
 	if err != nil {
@@ -559,11 +610,13 @@ func TestC08(t *testing.T) {
 	vs := variants08()
 	lcs := lenClasses08()
 	total := m.N(5000, 200000)
+	wbuf := make([]byte, 2048)
+	rg := &ring{}
 	m.Cases("hist", total, func(i int64, r *rand.Rand) {
 		blk := i / 16
 		v := vs[sched08[(i+blk)%16]]
 		lc := lcs[blk%int64(len(lcs))]
-		c := &run08{m: m, r: r, i: i, v: v, flags: map[string]bool{}}
+		c := &run08{m: m, r: r, i: i, v: v, flags: map[string]bool{}, wbuf: wbuf, ring: rg}
 		if i%16 == 0 {
 			c.py = py
 		}
@@ -597,7 +650,12 @@ func TestC08(t *testing.T) {
 		}
 		full := mon.Bytes(r, msgLen)
 		chunks, style := cuts08(r, msgLen, v.rate)
-		root := &inst08{id: 0, h: v.mk(c.n, c.s)}
+		c.nArg, c.sArg = append([]byte{}, c.n...), append([]byte{}, c.s...)
+		root := &inst08{id: 0, h: v.mk(c.nArg, c.sArg)}
+		if len(c.nArg)+len(c.sArg) > 0 {
+			m.Count("cshake_ns_scribbled_histories", 1)
+		}
+		c.scribbleNS() // the constructor must have copied N and S
 		c.nextID = 1
 		var kept []*inst08
 		isXOF := v.kind == kSHAKE || v.kind == kCSHAKE
@@ -732,6 +790,10 @@ func TestC08(t *testing.T) {
 		}
 		for _, cl := range kept {
 			c.sum(cl)
+			if r.IntN(4) == 0 {
+				c.reset(cl) // Clone then Reset: the clone's initial state is that of the ORIGINAL N/S
+				m.Count("clone_then_reset", 1)
+			}
 			extra := mon.Bytes(r, 1+r.IntN(v.rate+5))
 			c.write(cl, extra)
 			m.Count("clones_diverged", 1)
@@ -776,6 +838,14 @@ func TestC08(t *testing.T) {
 	m.Gate("cshake_empty_NS_equals_shake", q(50, 2000), "cSHAKE with empty N and S compared with SHAKE definition (and gcrypt SHAKE)")
 	m.Gate("cshake_prefix_exactly_fills_block", q(50, 2000), "encode_string(N)||encode_string(S) with left_encode(rate) is a whole number of rate blocks (bytepad adds nothing)")
 	m.Gate("read_crosses_rate_boundary", q(1000, 40000), "a Read spanning a permutation boundary")
+	m.Gate("writes_via_scribbled_buffer", q(20000, 800000), "Writes fed through one reused buffer that is overwritten right after the call")
+	m.Gate("cshake_ns_scribbled_histories", q(700, 28000), "cSHAKE histories whose caller-owned N/S slices were overwritten after the constructor and after every Clone/Reset")
+	m.Gate("cshake_ns_scribbles", q(2000, 80000), "N/S overwrites performed")
+	m.Gate("retained_slice_rechecks", q(200000, 8000000), "earlier Sum results / Read destinations re-compared with their snapshots after later calls")
+	m.Gate("sum_prefix_no_spare", q(1500, 60000), "Sum(b) with non-empty b and no spare capacity, guard bytes around the backing array")
+	m.Gate("sum_prefix_spare_fits", q(1500, 60000), "Sum(b) with spare capacity for the whole digest")
+	m.Gate("sum_prefix_spare_short", q(1500, 60000), "Sum(b) with spare capacity smaller than the digest")
+	m.Gate("read_sentinel_checks", q(20000, 800000), "Read destinations surrounded by sentinel bytes")
 	m.Gate("sum_comparisons", q(10000, 400000), "Sum outputs compared with the reference")
 	m.Gate("read_comparisons", q(5000, 200000), "Read outputs compared with the reference")
 }
@@ -809,6 +879,7 @@ func (c *run08) oneShot(msg []byte) {
 		return
 	}
 	c.m.Eval()
+	c.ring.keep(got, c.v.name+":oneshot")
 	c.m.Count("oneshot_comparisons", 1)
 	w, ok := c.want(msg, out)
 	if ok && !bytes.Equal(got, w) {
